@@ -695,6 +695,9 @@ def run(chk):
     from . import c12
     c12.check_errno_table(chk, tu, W.host_macros(('E', 'SEEK_', 'O_')), rule='R14.8')
     chk.floor('R14.8', 30)
+    # R14.10: the type byte of a directory entry: host mode word -> witx filetype, for every host S_IF* kind (rule shared with C12 R12.3)
+    c12.check_filetype_table(chk, tu, rule='R14.10')
+    chk.floor('R14.10', 25)
     chk.floor('R14.9', 4)
     chk.floor('R14.7', 8)
     chk.floor('R14.1', 40)
